@@ -706,6 +706,9 @@ func (w *World) commit(c *ContactState, rec *SessionRec, call *Call, o *Outcome)
 			c.Session = nil
 		}
 		c.Ended = rec
+		if w.Cfg.Fork && !w.stopped {
+			w.forkEnded(c, rec, call.SA)
+		}
 	}
 
 	// follow-ups from events
